@@ -9,9 +9,9 @@ import vlib
 from gen import c13_features as F
 
 ID = "C13"
-PROPS = ["IsoVerif/Props/C13.lean", "IsoVerif/Props/C13Profiles.lean", "IsoVerif/Props/C13Rows.lean"]
-TARGETS = ["IsoVerif.Props.C13", "IsoVerif.Props.C13Profiles", "IsoVerif.Props.C13Rows"]
-GEN_DEPS = ["Prims", "Strategies"]
+PROPS = ["IsoVerif/Props/C13.lean", "IsoVerif/Props/C13Profiles.lean", "IsoVerif/Props/C13Rows.lean", "IsoVerif/Props/C13Chromosome.lean"]
+TARGETS = ["IsoVerif.Props.C13", "IsoVerif.Props.C13Profiles", "IsoVerif.Props.C13Rows", "IsoVerif.Props.C13Chromosome"]
+GEN_DEPS = ["Prims", "Strategies", "Constants", "Enums", "EventClasses", "Resolver"]
 LEVEL = "proof"
 RULE = ("model vs implementation on (a) construct_exon_profile / construct_intron_profile through the real "
         "CombinedProfileConstructor wiring: sampled small universe (<=2 known features, <=3 gapped blocks over 1..8, delta 0..2) "
@@ -235,6 +235,187 @@ def case_to_req(case, gis, next_id):
             "next_id": next_id, "genes": genes, "reads": case["reads"]}
 
 
+# ---- chromosome level: real forward_alignments / gene loading / resolver / counter, table-driven per-alignment answers ----
+
+class _FakeAln:
+    __slots__ = ("reference_start", "reference_end", "is_secondary", "is_supplementary", "reference_id", "mapping_quality",
+                 "query_name", "rid", "is_reverse")
+
+    def __init__(self, a):
+        self.reference_start, self.reference_end = a[0], a[1]
+        self.is_secondary = bool(a[2] & 1)
+        self.is_supplementary = bool(a[2] & 2)
+        self.reference_id = -1 if a[2] & 4 else 0
+        self.mapping_quality = a[3]
+        self.rid = a[4]
+        self.query_name = "r%06d" % a[4]
+        self.is_reverse = False
+
+
+class _FakeBam:
+    """pysam fetch = overlap filter on the half-open interval, file order"""
+
+    def __init__(self, objs):
+        self.objs = objs
+
+    def fetch(self, chr_id, start, end, multiple_iterators=False):
+        return iter([a for a in self.objs if a.reference_start < end and a.reference_end > start])
+
+    def get_reference_length(self, chr_id):
+        return 10 ** 12
+
+    def reset(self):
+        pass
+
+
+class _FakeGene:
+    def __init__(self, g):
+        self.id, self.start, self.end = g[0], g[1], g[2]
+
+
+class _FakeGenedb:
+    """gffutils FeatureDB.region(seqid, start, end, featuretype='gene'): the gene records overlapping [start, end]"""
+
+    def __init__(self, genes):
+        self.genes = [_FakeGene(g) for g in genes]
+
+    def region(self, seqid=None, start=None, end=None, featuretype=None):
+        return iter([g for g in self.genes if g.start <= end and g.end >= start])
+
+
+def impl_chromosome(kw):
+    """one chromosome through the REAL AlignmentCollector.process / forward_alignments / process_alignments_in_region /
+    get_gene_info_for_region (storages, splitting, which region the genes are asked for), the REAL MultimapResolver and the
+    REAL ExonCounter; only GeneInfo construction and the per-alignment work of process_genic / process_intergenic are replaced
+    by the tables of the case"""
+    C, GI, LP, LC, IA = _impl()
+    import src.alignment_processor as AP
+    import src.multimap_resolver as MR
+    import src.stats as ST
+    hits = {r: h for r, h in kw["hits"]}
+    marks = {r: m for r, m in kw["marks"]}
+    asked = []
+
+    class FakeGI:
+        def __init__(self, gene_list, db, delta):
+            self.gids = [g.id for g in gene_list]
+
+        @classmethod
+        def from_region(cls, chr_id, start, end, delta=0, chr_record=None):
+            o = cls([], None, delta)
+            return o
+
+        def empty(self):
+            return not self.gids
+
+        def set_reference_sequence(self, *a):
+            pass
+
+    objs = [_FakeAln(a) for a in kw["alns"]]
+    col = AP.AlignmentCollector.__new__(AP.AlignmentCollector)
+    col.chr_id = "chrF"
+    col.params = SimpleNamespace(high_memory=kw["mode"] == "memory", needs_reference=False, delta=6)
+    col.bam_pairs = [(_FakeBam(objs), "fake.bam")]
+    col.bam_merger = AP.BAMOnlineMerger(col.bam_pairs, "chrF", 0, 10 ** 12, multiple_iterators=kw["mode"] != "memory")
+    col.alignment_stat_counter = ST.EnumStats()
+    col.genedb = _FakeGenedb(kw["genes"])
+    col.chr_record = None
+    real_get = col.get_gene_info_for_region
+
+    def get(region):
+        asked.append([region[0], region[1]])
+        return real_get(region)
+    col.get_gene_info_for_region = get
+
+    def work(alignment_storage, gene_info, region):
+        res = []
+        vis = set(gene_info.gids)
+        for _, a in alignment_storage:
+            h = [x for x in hits.get(a.rid, []) if x[1] in vis]
+            ra = IA.BasicReadAssignment.__new__(IA.BasicReadAssignment)
+            ra.assignment_id = 0
+            ra.read_id, ra.chr_id, ra.start, ra.end = a.query_name, "chrF", a.reference_start, a.reference_end
+            ra.genomic_region = tuple(region)
+            ra.multimapper = a.is_secondary
+            ra.polyA_found = False
+            if not h:
+                t = IA.ReadAssignmentType.intergenic if not vis else IA.ReadAssignmentType.noninformative
+                ra.assignment_type = ra.gene_assignment_type = t
+            else:
+                ra.assignment_type = IA.ReadAssignmentType.unique if len(h) == 1 else IA.ReadAssignmentType.ambiguous
+                ra.gene_assignment_type = IA.ReadAssignmentType.unique
+            ra.penalty_score = 0.0
+            ra.isoforms = ["T%06d" % x[0] for x in h]
+            ra.genes = ["G%06d" % x[1] for x in h]
+            ra.rid = a.rid
+            if vis:
+                ms = [m for m in marks.get(a.rid, []) if m[0] in vis]
+                ra.profile = [m[3] for m in ms]
+                ra.pmap = [GI.FeatureInfo("chrF", m[1], m[2], "+", "I", []) for m in ms]
+            else:
+                ra.profile = None
+            res.append(ra)
+        return res
+    col.process_genic = work
+    col.process_intergenic = lambda alignment_storage, region: work(alignment_storage, SimpleNamespace(gids=[]), region)
+    saved = AP.GeneInfo
+    AP.GeneInfo = FakeGI
+    loads, records = [], []
+    try:
+        for gene_info, storage in col.process():
+            loads.append({"genes": list(gene_info.gids), "rids": [ra.rid for ra in storage], "region": list(storage[0].genomic_region) if storage else None})
+            records += storage
+    finally:
+        AP.GeneInfo = saved
+    for l, g in zip(loads, asked):
+        l["gene_region"] = g
+        if l["region"] is None:
+            l["region"] = g
+    by_read = {}
+    for ra in records:
+        by_read.setdefault(ra.rid, []).append(ra)
+    resolver = MR.MultimapResolver(MR.MultimapResolvingStrategy.take_best)
+    kept, feed = [], []
+    for rid in by_read:           # insertion order = first occurrence
+        out = resolver.resolve(by_read[rid])
+        evs = [ra for ra in out if ra.assignment_type != IA.ReadAssignmentType.suspended and ra.profile is not None]
+        kept.append([rid, len(evs)])
+        feed += evs
+    d = tempfile.mkdtemp(prefix="isoverif_c13_")
+    try:
+        cnt = LC.ExonCounter(os.path.join(d, "x"), ignore_read_groups=True)
+        for ra in feed:
+            cnt.add_read_info(SimpleNamespace(exon_gene_profile=ra.profile, intron_gene_profile=[], read_group="NA",
+                                              gene_info=SimpleNamespace(exon_property_map=ra.pmap, intron_property_map=[])))
+        cnt.dump()
+        _, rows, _ = parse_counts(cnt.output_counts_file_name)
+    finally:
+        shutil.rmtree(d, ignore_errors=True)
+    return {"loads": loads, "kept": kept, "rows": [[r["start"], r["end"], r["incl"], r["excl"]] for r in rows]}
+
+
+def oracle_chromosome(kw):
+    """the chromosome-level statement on the real code: the row of feature f = the number of alignments of the chromosome that
+    include / exclude f - every alignment once, whatever sub-regions it was handed to, with respect to the WHOLE annotation"""
+    r = guarded(impl_chromosome, kw)
+    if vlib.is_err(r):
+        return [("crash", "chromosome feed raised: %s" % r)]
+    exp = {}
+    for rid, ms in kw["marks"]:
+        for g, s_, e_, v in ms:
+            e = exp.setdefault((s_, e_), [0, 0])
+            e[0 if v == 1 else 1] += 1
+    got = {(a, b): [i, e] for a, b, i, e in r["rows"]}
+    fails = []
+    if got != exp:
+        bad = sorted(k for k in set(got) | set(exp) if got.get(k) != exp.get(k))
+        twice = [x for x in r["kept"] if x[1] > 1]
+        fails.append(("count_mismatch", "chromosome level (%s mode): %d features differ, e.g. %s reported incl/excl %s, recount %s; "
+                      "alignments counted more than once: %s"
+                      % (kw["mode"], len(bad), bad[0], got.get(bad[0]), exp.get(bad[0]), twice[:3])))
+    return fails
+
+
 def impl_effective_delta(strategy, delta):
     try:
         return run_set_matching_options(strategy, delta).delta
@@ -313,6 +494,15 @@ def correspondence(ctx):
         lines.append(vlib.req("C13.merge_info", **kw))
         post.append(("merge_info", kw, guarded(impl_merge_info, kw),
                      lambda mo: True, None))
+
+    # (g) chromosome level: collector (C05 model) + gene loading of every (sub-)region + resolver (C08 model) + counter against
+    #     the real forward_alignments / get_gene_info_for_region / MultimapResolver / ExonCounter (table-driven answers)
+    for i in range(120 if quick else 1200):
+        case = F.chromosome_case(rng, quick, small=(i % 3 == 0))
+        kw = dict(case, mode="memory" if i % 2 else "bam", repaired=True)
+        lines.append(vlib.req("C13.chromosome", **kw))
+        post.append(("chromosome", kw, guarded(impl_chromosome, kw),
+                     lambda mo: any(l["region"] != l["gene_region"] for l in mo["loads"]) and len(mo["rows"]) > 0, _cmp_chromosome))
 
     # (e) the delta a run uses: real set_matching_options vs the model over the regenerated preset table
     for strategy in ("exact", "precise", "default", "loose", "no_such_strategy"):
@@ -407,6 +597,19 @@ def _cmp_props(mo, io):
         if pa[:5] != pb[:5] or sorted(pa[5].split(",")) != sorted(pb[5].split(",")):
             return False
     return True
+
+
+def _cmp_chromosome(mo, io):
+    """regions, gene regions, alignment ids and kept-record counts exactly; loaded genes and rows as sets (gene_list is sorted
+    by start in the code, rows follow the feed order)"""
+    if len(mo["loads"]) != len(io["loads"]):
+        return False
+    for a, b in zip(mo["loads"], io["loads"]):
+        if list(a["region"]) != list(b["region"]) or list(a["gene_region"]) != list(b["gene_region"]) or \
+                sorted(a["genes"]) != sorted(b["genes"]) or list(a["rids"]) != list(b["rids"]):
+            return False
+    return [list(x) for x in mo["kept"]] == [list(x) for x in io["kept"]] and \
+        sorted(map(tuple, mo["rows"])) == sorted(map(tuple, io["rows"]))
 
 
 def _cmp_pipeline(mo, io):
@@ -550,7 +753,7 @@ def oracle_tables(tables, reads, chrom, d, abs_d, default_group, annotation=None
             for f, (vs, vl, exact, cands) in zip(K, vals):
                 if (f in touched[0 if kind == "exon" else 1]) if touched is not None else True:
                     e = seen_isos.setdefault(f, {})
-                    for t in r["isos"]:
+                    for t in r.get("loaded", r["isos"]):
                         e[t["tid"]] = t
                 for g in (None, r["group"]):
                     key = (f, g)
@@ -656,24 +859,31 @@ def oracle_inprocess(case):
         gi = gis[r["gene"]]
         touched = ({f for f, v in zip(gi.exon_profiles.features, ep) if v in (1, -1)},
                    {f for f, v in zip(gi.intron_profiles.features, ip) if v in (1, -1)})
-        reads.append(dict(r, isos=case["loads"][r["gene"]], touched=touched))
+        # the statement is about the chromosome: a read is judged against the WHOLE annotation, not against the genes its
+        # (sub-)region happened to load (audit2 GAP 1); `loaded` keeps the genes through which it was counted (label class)
+        reads.append(dict(r, isos=case.get("annotation") or case["loads"][r["gene"]], loaded=case["loads"][r["gene"]], touched=touched))
     return oracle_tables(io, reads, case["chr"], case["d"], case["abs_d"], case["default_group"], case.get("annotation"))
 
 
 # ---- pipeline level ------------------------------------------------------------------------------
 
 PIPE_CONFIGS = [
-    # (matching strategy / delta args, read group args, explicit-delta run: reads get splice-site shifts of 1..6 bp)
-    (["--matching_strategy", "exact"], None, False),
-    (["--matching_strategy", "precise"], "tag:RG", False),
-    (["--matching_strategy", "default"], None, False),
-    (["--matching_strategy", "loose"], "read_id:_", False),
-    (["--delta", "2"], "tag:RG", True),
-    ([], "read_id:_", False),          # data-type default
+    # (matching strategy / delta args, read group args, explicit-delta run: reads get splice-site shifts of 1..6 bp,
+    #  restart: None | "with_profiles" | "without_profiles" = the tables are written by a second run started with
+    #  `--read_assignments <save of the first run> --count_exons`, the first run made with / without --count_exons)
+    (["--matching_strategy", "exact"], None, False, None),
+    (["--matching_strategy", "precise"], "tag:RG", False, None),
+    (["--matching_strategy", "default"], None, False, None),
+    (["--matching_strategy", "loose"], "read_id:_", False, None),
+    (["--delta", "2"], "tag:RG", True, None),
+    ([], "read_id:_", False, None),          # data-type default
     # an explicit --delta overrides the preset of every strategy, 0 included ("exact comparison requested")
-    (["--delta", "0"], None, True),
-    (["--delta", "0", "--matching_strategy", "precise"], "tag:RG", True),
-    (["--delta", "2", "--matching_strategy", "loose"], "read_id:_", True),
+    (["--delta", "0"], None, True, None),
+    (["--delta", "0", "--matching_strategy", "precise"], "tag:RG", True, None),
+    (["--delta", "2", "--matching_strategy", "loose"], "read_id:_", True, None),
+    # restart from saved read assignments (audit2 GAP 2): the profiles are computed at collection time only
+    (["--matching_strategy", "default"], "tag:RG", False, "with_profiles"),
+    (["--matching_strategy", "default"], None, False, "without_profiles"),
 ]
 EXPLICIT_SHIFTS = [1, 2, 3, 4, 5, 6]
 
@@ -783,12 +993,23 @@ def synth_dataset(seed, d, shifts=None):
     return ds, truth
 
 
-def split_dataset(seed):
-    """a read cluster that AlignmentCollector.split_coverage_regions cuts into sub-regions, with a gene overlapping only one
-    of them: gene gA (+) spans > 32768 bp (exons at ~1 kb, ~20 kb and a last exon at ~50 kb), gene gB (-) starts with that
-    last exon; ONE read follows the long isoform of gA (coverage-1 valley between 22 kb and 50 kb), more reads its short
-    isoform and gB.  The sub-region left of the valley loads gA only, the right one gA and gB; the reads spanning the
-    valley are processed in both.  Every shared feature is also read through the right sub-region (all its genes loaded)."""
+SPLIT_VARIANTS = ("shared", "nested", "readthrough", "two_cuts", "deep")
+
+
+def split_dataset(seed, variant="shared"):
+    """a read cluster that AlignmentCollector.split_coverage_regions cuts into sub-regions, with genes overlapping only one
+    of them.  Gene gA (+) spans > 32768 bp (exons at ~1 kb, ~20 kb and a last exon at ~50 kb); reads of its long isoform
+    bridge the cut (coverage valley between 22 kb and 50 kb) and are processed in BOTH sub-regions.
+      shared       gB (-) starts with gA's last exon: the sub-region left of the valley loads gA only, the right one gA and gB
+                   (row identity, finding G1); the bridging read covers shared features only
+      nested       gN (-) lies inside gA's long intron, right of the cut: the bridging read skips gN's exons and overlaps its
+                   intron (exclude counts), but the record kept for it may come from the left sub-region (audit2 GAP 1, lost counts)
+      readthrough  gL (+) lies left of the cut only; the bridging read follows gL and reads through into gA's last exons: its two
+                   records name different isoforms, both are kept (audit2 GAP 1, double counts)
+      two_cuts     gA continues with a second long intron (three sub-regions), one bridging read per cut (two bridging reads on
+                   the chromosome); gN nested right of the first cut, gM right of the second
+      deep         nested, with 230 reads of the short isoform so that the valley threshold is 2: TWO reads bridge the same cut
+    The expectations are always taken from the WHOLE annotation of the chromosome."""
     import random
     from gen import synth
     rng = random.Random(seed)
@@ -798,23 +1019,56 @@ def split_dataset(seed):
     n = 0
     for c in range(2):
         chrom = "chr%d" % (c + 1)
-        ds.add_chrom(chrom, 80000)
+        ds.add_chrom(chrom, 130000 if variant == "two_cuts" else 80000)
         o = rng.randint(0, 3000)
         ln = lambda: rng.randint(120, 260)
+        nxt = lambda prev, lo, hi: (lambda a: (a, a + ln()))(prev[1] + rng.randint(lo, hi))
         e1 = (1001 + o, 1000 + o + ln())
-        e2 = (20001 + o + rng.randint(0, 500), 0)
-        e2 = (e2[0], e2[0] + ln())
-        e2b = (e2[1] + rng.randint(1500, 2500), 0)
-        e2b = (e2b[0], e2b[0] + ln())
-        e3 = (e2b[1] + rng.randint(27000, 30000), 0)
-        e3 = (e3[0], e3[0] + ln())
-        e4 = (e3[1] + rng.randint(1200, 2000), 0)
-        e4 = (e4[0], e4[0] + ln())
-        tA1, tA2, tB1 = [e1, e2, e3], [e1, e2, e2b], [e3, e4]
+        e2 = nxt((0, 20000 + o), 1, 500)
+        e2b = nxt(e2, 1500, 2500)
+        e3 = nxt(e2b, 27000, 30000)
+        e4 = nxt(e3, 1200, 2000)
         ga, gb = "gA%d" % c, "gB%d" % c
-        ds.add_gene(chrom, ga, "+", [(ga + ".t1", tA1), (ga + ".t2", tA2)], plant=False)
-        ds.add_gene(chrom, gb, "-", [(gb + ".t1", tB1)], plant=False)
-        for t, k in ((tA1, 1), (tA2, rng.randint(4, 7)), (tB1, rng.randint(3, 6))):     # one spanning read: the valley has coverage 1
+        plan = []          # (exon blocks, number of reads)
+        if variant == "shared":
+            tA1, tA2, tB1 = [e1, e2, e3], [e1, e2, e2b], [e3, e4]
+            ds.add_gene(chrom, ga, "+", [(ga + ".t1", tA1), (ga + ".t2", tA2)], plant=False)
+            ds.add_gene(chrom, gb, "-", [(gb + ".t1", tB1)], plant=False)
+            plan = [(tA1, 1), (tA2, rng.randint(4, 7)), (tB1, rng.randint(3, 6))]
+        elif variant in ("nested", "deep"):
+            tA1, tA2 = [e1, e2, e3], [e1, e2, e2b]
+            n1 = nxt(e2b, 14000, 16000)
+            n2 = nxt(n1, 500, 900)
+            ds.add_gene(chrom, ga, "+", [(ga + ".t1", tA1), (ga + ".t2", tA2)], plant=False)
+            ds.add_gene(chrom, "gN%d" % c, "-", [("gN%d.t1" % c, [n1, n2])], plant=False)
+            deep = variant == "deep"
+            plan = [(tA1, 2 if deep else 1), (tA2, 230 if deep else rng.randint(4, 7)), ([n1, n2], rng.randint(3, 5))]
+        elif variant == "readthrough":
+            a1 = (e1[1] + 3800, e1[1] + 3800 + ln())
+            l2 = nxt(e1, 250, 400)
+            tA1, tA2, tL1 = [a1, e2, e3, e4], [a1, e2, e2b], [e1, l2]
+            ds.add_gene(chrom, ga, "+", [(ga + ".t1", tA1), (ga + ".t2", tA2)], plant=False)
+            ds.add_gene(chrom, "gL%d" % c, "+", [("gL%d.t1" % c, tL1)], plant=False)
+            plan = [([e1, l2, e3, e4], 1), (tA2, rng.randint(4, 7)), ([e3, e4], rng.randint(3, 5))]
+        elif variant == "two_cuts":
+            e4b = nxt(e4, 1500, 2500)
+            e5 = nxt(e4b, 36000, 38000)
+            e6 = nxt(e5, 1200, 2000)
+            tA1, tA2, tA3 = [e1, e2, e3, e4, e5, e6], [e1, e2, e2b], [e3, e4, e4b]
+            n1 = nxt(e2b, 14000, 16000)
+            n2 = nxt(n1, 500, 900)
+            m1 = nxt(e4b, 17000, 19000)
+            m2 = nxt(m1, 500, 900)
+            ds.add_gene(chrom, ga, "+", [(ga + ".t1", tA1), (ga + ".t2", tA2), (ga + ".t3", tA3)], plant=False)
+            ds.add_gene(chrom, "gN%d" % c, "-", [("gN%d.t1" % c, [n1, n2])], plant=False)
+            ds.add_gene(chrom, "gM%d" % c, "+", [("gM%d.t1" % c, [m1, m2])], plant=False)
+            # each valley is crossed by exactly one read (coverage 1)
+            plan = [([e1, e2, e3, e4], 1), ([e3, e4, e5, e6], 1), (tA2, rng.randint(4, 7)), (tA3, rng.randint(4, 7)),
+                    ([e5, e6], rng.randint(3, 5)),
+                    ([n1, n2], rng.randint(2, 4)), ([m1, m2], rng.randint(2, 4))]
+        else:
+            raise ValueError(variant)
+        for t, k in plan:
             for _ in range(k):
                 g = rng.choice(groups)
                 name = "r%d_%s" % (n, g)
@@ -832,17 +1086,37 @@ def oracle_pipeline(seed, cfg_index, repo=None, keep=None, split=False):
     """run the real pipeline with --count_exons and recount from BAM + GTF"""
     import pipeline as P
     import pysam
-    margs, rg, explicit = PIPE_CONFIGS[cfg_index]
+    margs, rg, explicit, restart = PIPE_CONFIGS[cfg_index]
     d, abs_d = requested_delta(margs)
-    ds, truth = split_dataset(seed) if split else synth_dataset(seed, d, EXPLICIT_SHIFTS if explicit else None)
+    ds, truth = split_dataset(seed, split if isinstance(split, str) else "shared") if split else synth_dataset(seed, d, EXPLICIT_SHIFTS if explicit else None)
     root = P.scratch("isoverif_c13_pipe_")
     try:
         paths = ds.write(os.path.join(root, "data"))
-        extra = ["--count_exons"] + list(margs) + (["--read_group", rg] if rg else [])
+        opts = list(margs) + (["--read_group", rg] if rg else [])
+        extra = (["--count_exons"] if restart != "without_profiles" else []) + opts + (["--keep_tmp"] if restart else [])
         rc, log = P.run_isoquant(os.path.join(root, "out"), P.std_args(paths, threads=2, extra=extra))
         if rc != 0:
             return [("pipeline_crash", log[-800:])], {}
         files = P.out_files(os.path.join(root, "out"))
+        if restart:
+            save = os.path.join(root, "out", "S", "aux", "S.save")
+            a2 = ["--threads", "2", "--read_assignments", save, "--reference", paths["ref"], "--data_type", "nanopore", "-p", "S",
+                  "--no_gzip", "--genedb", paths["gtf"], "--complete_genedb", "--count_exons"] + opts
+            rc2, log2 = P.run_isoquant(os.path.join(root, "out2"), a2)
+            if rc2 != 0:
+                # a restart that cannot count must say why: refusing loudly is not a wrong table
+                if restart == "without_profiles" and "--count_exons" in log2 and "profiles" in log2:
+                    return [], {"restart": restart, "refused": True}
+                return [("pipeline_crash", "restart with --read_assignments --count_exons: " + log2[-800:])], {}
+            sub = [d_ for d_ in sorted(os.listdir(os.path.join(root, "out2"))) if os.path.isdir(os.path.join(root, "out2", d_))]
+            files2 = {}
+            for d_ in sub:
+                for fn in os.listdir(os.path.join(root, "out2", d_)):
+                    if fn.startswith(d_ + "."):
+                        files2["S." + fn[len(d_) + 1:]] = os.path.join(root, "out2", d_, fn)
+            ra1 = files["S.read_assignments.tsv"]
+            files = dict(files2)
+            files["S.read_assignments.tsv"] = files2.get("S.read_assignments.tsv", ra1)
         tables = {}
         for k, fn in (("exon", "S.exon_counts.tsv"), ("intron", "S.intron_counts.tsv"),
                       ("exon_grouped", "S.exon_grouped_counts.tsv"), ("intron_grouped", "S.intron_grouped_counts.tsv")):
@@ -897,6 +1171,12 @@ def oracle_pipeline(seed, cfg_index, repo=None, keep=None, split=False):
                 if r["chr"] not in chroms:
                     fails.append(("row_not_annotated", "%s: row on chromosome %s without reads" % (k, r["chr"])))
         stats = {"reads": sum(len(v) for v in by_chr.values()), "rows": {k: len(v) for k, v in tables.items()}, "delta": d}
+        if restart:
+            stats["restart"] = restart
+            if not any(tables.get(k) for k in ("exon", "intron")) and stats["reads"]:
+                fails = [("restart_without_profiles", "`--read_assignments <save> --count_exons` on a save made %s --count_exons exits 0 "
+                          "with header-only exon / intron tables (%d processed reads)"
+                          % ("without" if restart == "without_profiles" else "with", stats["reads"]))]
         if keep is not None:
             keep.update(stats)
         return fails, stats
@@ -905,7 +1185,11 @@ def oracle_pipeline(seed, cfg_index, repo=None, keep=None, split=False):
 
 
 def toy_rows_unique():
-    """the repo's toy data through the real pipeline: no feature in two rows"""
+    """the repo's toy data through the real pipeline: no feature in two rows, and a full RECOUNT of both tables.
+    Processed reads = one unit per alignment: the distinct (read id, exons) pairs of read_assignments.tsv that are not
+    intergenic (which alignments are processed is C05 / C08's subject; the exons are the polyA-trimmed blocks the profiles
+    were built from).  Expectations from the WHOLE annotation of the chromosome (one chromosome; a gene far from a read cannot
+    be touched by it)."""
     import pipeline as P
     root = P.scratch("isoverif_c13_toy_")
     try:
@@ -918,16 +1202,45 @@ def toy_rows_unique():
         files = P.out_files(os.path.join(root, "out"))
         fails = []
         n = 0
-        for fn in ("S.exon_counts.tsv", "S.intron_counts.tsv"):
+        tables = {}
+        for k, fn in (("exon", "S.exon_counts.tsv"), ("intron", "S.intron_counts.tsv")):
             header, rows, _ = parse_counts(files[fn])
+            tables[k] = rows
             seen = set()
             for r in rows:
                 n += 1
-                k = (r["chr"], r["start"], r["end"], r["group"])
-                if k in seen:
-                    fails.append(("feature_row_split", "%s (toy data): two rows for %s" % (fn, k[:3])))
-                seen.add(k)
-        return fails, {"toy_rows": n}
+                k3 = (r["chr"], r["start"], r["end"], r["group"])
+                if k3 in seen:
+                    fails.append(("feature_row_split", "%s (toy data): two rows for %s" % (fn, k3[:3])))
+                seen.add(k3)
+        tx = {}
+        for r in P.parse_gtf(paths["gtf"]):
+            if r["feature"] == "exon":
+                t = tx.setdefault((r["chr"], r["attrs"]["transcript_id"]), {"tid": r["attrs"]["transcript_id"], "strand": r["strand"],
+                                                                            "gene": r["attrs"]["gene_id"], "feats": []})
+                t["feats"].append((r["start"], r["end"]))
+        for t in tx.values():
+            t["feats"].sort()
+        d, abs_d = requested_delta([])
+        by_chr, seen = {}, set()
+        for a in P.read_assignments(files["S.read_assignments.tsv"]):
+            if a["assignment_type"] == "intergenic":
+                continue
+            k2 = (a["read_id"], a["chr"], a["exons"])
+            if k2 in seen:
+                continue
+            seen.add(k2)
+            isos = by_chr.setdefault(a["chr"], {"isos": [t for (c, _), t in tx.items() if c == a["chr"]], "reads": []})
+            isos["reads"].append({"blocks": parse_exon_str(a["exons"]), "group": DEFAULT_GROUP, "polya": -1, "polyt": -1,
+                                  "isos": isos["isos"]})
+        nfail = 0
+        for chrom, e in sorted(by_chr.items()):
+            sub = {k: [r for r in rows if r["chr"] == chrom] for k, rows in tables.items()}
+            for kind, detail in oracle_tables(sub, e["reads"], chrom, d, abs_d, DEFAULT_GROUP, annotation=e["isos"]):
+                if kind not in CLASS_KINDS:
+                    nfail += 1
+                fails.append((kind, "toy data: " + detail))
+        return fails, {"toy_rows": n, "toy_reads_recounted": sum(len(e["reads"]) for e in by_chr.values()), "toy_recount_failures": nfail}
     finally:
         shutil.rmtree(root, ignore_errors=True)
 
@@ -951,9 +1264,10 @@ G1_CASE = {"chr": "chr1", "d": 6, "abs_d": 20, "default_group": "NA", "loads": [
                     [{"gene": 0, "blocks": _G1_A[1]["feats"], "polya": -1, "polyt": -1, "group": "NA"} for _ in range(4)] +
                     [{"gene": 1, "blocks": _G1_B[0]["feats"], "polya": -1, "polyt": -1, "group": "NA"} for _ in range(3)]}
 
-# known finding partial_load_label: the G1 annotation when the shared exon is counted ONLY through the sub-region that
-# loads gA alone (no read of gB): the row cannot name gB (`partial_label_witness`)
-PARTIAL_CASE = dict(G1_CASE, loads=[_G1_A], reads=[G1_CASE["reads"][0]])
+# former known finding partial_load_label (root removed by the repair of audit2 GAP 1): the G1 annotation when the shared exon
+# is counted ONLY through the left sub-region (no read of gB).  The left sub-region now loads every gene its alignments
+# overlap - the tA1 read reaches 50200, so gB is loaded - and the row names gB (`partial_label_witness` keeps the old loading)
+PARTIAL_CASE = dict(G1_CASE, loads=[_G1_A + _G1_B], reads=[G1_CASE["reads"][0]])
 
 # class micro_feature_sweep_skip on the real wrappers (audit G2; `micro_exon_witness`, `micro_intron_witness`)
 MICRO_WITNESSES = [
@@ -1025,6 +1339,9 @@ def oracle(ctx, disagreements, broken):
             if dv is not None and dv >= 0 and not vlib.is_err(impl_effective_delta(st, dv)) and impl_effective_delta(st, dv) != dv:
                 _fail(ctx, "explicit_delta_ignored", {"level": "options", "strategy": st, "delta": dv},
                          "set_matching_options(matching_strategy=%s, delta=%d) leaves args.delta = %r" % (st, dv, impl_effective_delta(st, dv)))
+        elif dgr["op"] == "chromosome":
+            for kind, detail in oracle_chromosome(inp):
+                _fail(ctx, kind, {"level": "chromosome", "case": inp}, detail)
         elif dgr["op"] in ("exon_profile", "intron_profile"):
             for kind, detail in oracle_profile(dgr["op"], inp):
                 _fail(ctx, kind, {"level": "profile", "op": dgr["op"], "case": inp}, detail)
@@ -1038,6 +1355,13 @@ def oracle(ctx, disagreements, broken):
             _fail(ctx, kind, {"level": "inprocess", "case": case}, detail)
         if len(ctx.failures) > 60:
             break
+    for i in range(80 if quick else 800):
+        kw = dict(F.chromosome_case(rng, quick, small=(i % 3 == 0)), mode="memory" if i % 2 else "bam", repaired=True)
+        n_cases += 1
+        ctx.count("oracle_chromosome_case")
+        for kind, detail in oracle_chromosome(kw):
+            if len(ctx.failures) < 70:
+                _fail(ctx, kind, {"level": "chromosome", "case": kw}, detail)
     for i in range(200 if quick else 2000):
         h = dict(F.history_case(rng, quick), key="coord", ignore_groups=bool(i % 2))
         n_cases += 1
@@ -1065,18 +1389,20 @@ def oracle(ctx, disagreements, broken):
         for s in range(n_seeds):
             seed = ctx.seed * 1000 + ci * 17 + s
             fails, stats = oracle_pipeline(seed, ci)
-            runs.append({"cfg": PIPE_CONFIGS[ci][0] + ([PIPE_CONFIGS[ci][1]] if PIPE_CONFIGS[ci][1] else []), "seed": seed,
+            runs.append({"cfg": PIPE_CONFIGS[ci][0] + ([PIPE_CONFIGS[ci][1]] if PIPE_CONFIGS[ci][1] else []) + ([PIPE_CONFIGS[ci][3]] if PIPE_CONFIGS[ci][3] else []), "seed": seed,
                          "stats": stats, "failures": len(fails)})
             for kind, detail in fails:
                 _fail(ctx, kind, {"level": "pipeline", "seed": seed, "cfg": ci}, detail)
-    # read clusters cut into sub-regions, a gene overlapping only one of them (finding G1)
-    for ci, s_ in ((2, 0), (1, 1)) if quick else [(ci, s_) for ci in (0, 1, 2, 3, 5) for s_ in range(3)]:
+    # read clusters cut into sub-regions, genes overlapping only one of them (finding G1; audit2 GAP 1: lost / double counts)
+    plan = [("shared", 2, 0), ("nested", 1, 1), ("readthrough", 5, 2), ("two_cuts", 2, 3), ("deep", 0, 4)] if quick else \
+        [(v_, ci, s_) for v_ in SPLIT_VARIANTS for ci in (0, 1, 2, 3, 5) for s_ in range(2)]
+    for v_, ci, s_ in plan:
         seed = ctx.seed * 1000 + 500 + ci * 17 + s_
-        fails, stats = oracle_pipeline(seed, ci, split=True)
-        runs.append({"cfg": ["split-cluster"] + PIPE_CONFIGS[ci][0] + ([PIPE_CONFIGS[ci][1]] if PIPE_CONFIGS[ci][1] else []), "seed": seed,
+        fails, stats = oracle_pipeline(seed, ci, split=v_)
+        runs.append({"cfg": ["split-cluster:" + v_] + PIPE_CONFIGS[ci][0] + ([PIPE_CONFIGS[ci][1]] if PIPE_CONFIGS[ci][1] else []), "seed": seed,
                      "stats": stats, "failures": len(fails)})
         for kind, detail in fails:
-            _fail(ctx, kind, {"level": "pipeline", "seed": seed, "cfg": ci, "split": True}, detail)
+            _fail(ctx, kind, {"level": "pipeline", "seed": seed, "cfg": ci, "split": v_}, detail)
     fails, stats = toy_rows_unique()
     runs.append({"cfg": "toy", "stats": stats, "failures": len(fails)})
     for kind, detail in fails:
@@ -1168,6 +1494,8 @@ def replay(ctx, failure):
         return any(k == failure["kind"] for k, _ in _safe_inprocess(inp["case"]))
     if lvl == "history":
         return any(k == failure["kind"] for k, _ in oracle_history(inp["case"]))
+    if lvl == "chromosome":
+        return any(k == failure["kind"] for k, _ in oracle_chromosome(inp["case"]))
     if lvl == "profile":
         return any(k == failure["kind"] for k, _ in oracle_profile(inp["op"], inp["case"]))
     if lvl == "pipeline":
